@@ -157,8 +157,22 @@ def theorem_status(prop_files, timeout=2400):
     for f in prop_files:
         src = strip_comments(open(os.path.join(COQ, f)).read())
         oblig += re.findall(r"^\s*(?:Theorem|Lemma|Corollary|Example)\s+(\w+)", src, re.M)
-    axioms = sorted(set(re.findall(r"^([\w.]+)\s*:", "\n".join(
-        blk for blk in re.findall(r"Axioms:\n((?:.+\n?)+?)(?:\n|$)", log_)), re.M)))
+    axioms = set()
+    in_block = False
+    for line in log_.splitlines():
+        if line.startswith("Axioms:"):
+            in_block = True
+            continue
+        if not in_block:
+            continue
+        if line.startswith((" ", "\t")):
+            continue
+        m = re.match(r"([A-Za-z_][\w.']*)\s*(:.*)?$", line)
+        if m and not line.startswith(("COQ", "Closed under", "make")):
+            axioms.add(m.group(1))
+        else:
+            in_block = False
+    axioms = sorted(axioms)
     return ok, oblig, axioms, log_
 
 
